@@ -28,6 +28,7 @@ import CpModel.ReaderProcess
         `mb=N|<n>`, `bs=<n>`, `len=N|<int>`; the processor table is `Gen.C05.requestBodyProcessors`
     trail ONCE HAST HASM MAXSIZE FAILAT NFIN LINES → `<ok|e413|malformed|other> read=<0|1> tr=<k>:<v>;…|N left=<n>`
         LINES = `-` or hex lines joined by `,` (what follows the body on the connection)
+    srv INDEX ADAPTERS                       → `body=<n> hdr=<n>` limits of the wsgi server of adapter INDEX
     trun LENGTH BUFSIZE BODYHEX FRAG OPS ONCE HAST HASM MAXSIZE FAILAT LINES
                                              → `<out>,… T=<…as trail…>` (`te:<kind>` = aborted by the trailer)
 -/
@@ -171,6 +172,20 @@ def stepProc (fs : List String) : Option String :=
       some (showDecision (decision Gen.C05.requestBodyProcessors (effective lv)
         { method := m, clen := c, te := t, trailer := tr, ctype := ct }))
     | _, _, _, _, _, _ => none
+  | ["srv", idx, ads] =>
+    -- ADAPTERS = `<body>/<hdr>` joined by `,`; each `D` (never configured), `N` (None) or a decimal
+    let cell (c : String) : Option (Option (Option Nat)) :=
+      if c == "D" then some none else if c == "N" then some (some none) else c.toNat?.map fun n => some (some n)
+    let parsed := (ads.splitOn ",").mapM fun a =>
+      match a.splitOn "/" with
+      | [b, h] => match cell b, cell h with
+        | some b, some h => some ({ body := b, header := h } : Adapter)
+        | _, _ => none
+      | _ => none
+    match idx.toNat?, parsed with
+    | some i, some as =>
+      some (match wsgiLimits as i with | some (b, h) => s!"body={b} hdr={h}" | none => "none")
+    | _, _ => none
   | ["trail", once, ht, hm, ms, fa, n, ls] =>
     match parseBool? once, parseBool? ht, parseBool? hm, parseBool? ms, Proto.optNat? fa, n.toNat?, parseLines ls with
     | some once, some ht, some hm, some ms, some fa, some n, some ls =>
@@ -195,7 +210,7 @@ def stepProc (fs : List String) : Option String :=
 def stepAll (line : String) : String :=
   match Proto.fields line with
   | kw :: rest =>
-    if kw == "len" || kw == "dec" || kw == "trail" || kw == "trun" then
+    if kw == "len" || kw == "dec" || kw == "trail" || kw == "trun" || kw == "srv" then
       (stepProc (kw :: rest)).getD "bad-op"
     else step line
   | [] => "bad-op"
